@@ -47,11 +47,13 @@ structure Enc where
   cacheSize : Nat
   range : Nat
   cache : Nat
+  /-- `out_total`: number of bytes written by `rc_shift_low` since `rc_reset` (always `outRev.length`) -/
+  outTotal : Nat
   outRev : List UInt8
   deriving Repr, DecidableEq, Inhabited
 
 /-- `rc_reset` (the output written so far is kept by the caller; here: empty) -/
-def Enc.init : Enc := { low := 0, cacheSize := 1, range := UINT32_MAX, cache := 0, outRev := [] }
+def Enc.init : Enc := { low := 0, cacheSize := 1, range := UINT32_MAX, cache := 0, outTotal := 0, outRev := [] }
 
 /-- `n` copies of `b` pushed onto a reversed output -/
 def pushN : Nat → UInt8 → List UInt8 → List UInt8
@@ -66,7 +68,8 @@ def shiftLow (e : Enc) : Enc :=
     -- first iteration writes `cache + carry`, the remaining `cache_size - 1` iterations write `0xFF + carry` (as uint8_t)
     let out1 := UInt8.ofNat ((e.cache + carry) % 256) :: e.outRev
     let out2 := pushN (e.cacheSize - 1) (UInt8.ofNat ((0xFF + carry) % 256)) out1
-    { low := (e.low % 16777216) * 256, cacheSize := 1, range := e.range, cache := (e.low / 16777216) % 256, outRev := out2 }
+    { low := (e.low % 16777216) * 256, cacheSize := 1, range := e.range, cache := (e.low / 16777216) % 256,
+      outTotal := e.outTotal + e.cacheSize, outRev := out2 }
   else
     { e with cacheSize := e.cacheSize + 1, low := (e.low % 16777216) * 256 }
 
@@ -132,12 +135,14 @@ abbrev Probs := Array Nat
 
 @[inline] def probUpdate (p : Nat) (b : Bool) : Nat := if b then probUpdate1 p else probUpdate0 p
 
-/-- `rc_encode` of one queued symbol: reads `*probs[pos]`, encodes, writes the updated probability back. -/
-@[inline] def encOp (s : Probs × Enc) : Op → Probs × Enc
-  | .bit ctx b =>
-    let p := s.1.getD ctx 0
-    (s.1.setIfInBounds ctx (probUpdate p b), encBit s.2 p b)
-  | .direct b => (s.1, encDirect s.2 b)
+/-- `rc_encode` of one queued symbol: reads `*probs[pos]`, encodes, writes the updated probability back.
+    (The pair is taken apart first so that the array is updated in place.) -/
+@[inline] def encOp (s : Probs × Enc) (op : Op) : Probs × Enc :=
+  match s, op with
+  | (ps, e), .bit ctx b =>
+    let p := ps.getD ctx 0
+    (ps.setIfInBounds ctx (probUpdate p b), encBit e p b)
+  | (ps, e), .direct b => (ps, encDirect e b)
 
 def encOps (ps : Probs) (e : Enc) (ops : List Op) : Probs × Enc := ops.foldl encOp (ps, e)
 
@@ -256,9 +261,9 @@ def dummyOps (outLimit : Nat) (ps : Probs) : Dummy → List Op → Option Dummy
       | .direct false => dummyOps outLimit ps { d with range := d.range / 2 } ops
       | .direct true => let r := d.range / 2; dummyOps outLimit ps { d with low := d.low + r, range := r } ops
 
-/-- `rc_encode_dummy(rc, out_limit)` for the queued symbols `ops`; `outTotal` = `rc->out_total`. -/
-def encodeDummy (ps : Probs) (e : Enc) (outTotal : Nat) (ops : List Op) (outLimit : Nat) : Bool :=
-  match dummyOps outLimit ps { low := e.low, cacheSize := e.cacheSize, range := e.range, cache := e.cache, outPos := outTotal } ops with
+/-- `rc_encode_dummy(rc, out_limit)` for the queued symbols `ops`. -/
+def encodeDummy (ps : Probs) (e : Enc) (ops : List Op) (outLimit : Nat) : Bool :=
+  match dummyOps outLimit ps { low := e.low, cacheSize := e.cacheSize, range := e.range, cache := e.cache, outPos := e.outTotal } ops with
   | none => true
   | some d =>
     match shiftLowDummy outLimit d with
